@@ -168,20 +168,23 @@ func shiftSet(s lenset, d int64) lenset { // {n - d | n ∈ s, n ≥ d}
 type relKey struct{ x, v types.Object }
 
 type state struct {
-	dead  bool
-	lens  map[types.Object]lenset
-	lo    map[types.Object]int64
-	hi    map[types.Object]int64
-	rel   map[relKey]int64              // len(x) ≥ v + c
-	alias map[types.Object]types.Object // n == len(x)
-	par   map[types.Object]int          // parity of len(x) (slice / string variables) or of v (integer variables)
-	lge   map[relKey]int64              // len(x) ≥ len(v) + c   (v a slice / string variable here)
+	dead   bool
+	lens   map[types.Object]lenset
+	lo     map[types.Object]int64
+	hi     map[types.Object]int64
+	rel    map[relKey]int64              // len(x) ≥ v + c
+	alias  map[types.Object]types.Object // n == len(x)
+	par    map[types.Object]int          // parity of len(x) (slice / string variables) or of v (integer variables)
+	lge    map[relKey]int64              // len(x) ≥ len(v) + c   (v a slice / string variable here)
+	nonNil map[types.Object]bool         // v is known present / non-nil (its `ok` flag was tested, or v != nil)
+	okOf   map[types.Object]types.Object // ok flag ↦ the value it was returned with (`v, ok := f()`)
+	nilSrc map[types.Object]string       // v was assigned from a call of a function that can return nil (callee name)
 }
 
 func newState() *state {
 	return &state{lens: map[types.Object]lenset{}, lo: map[types.Object]int64{}, hi: map[types.Object]int64{},
 		rel: map[relKey]int64{}, alias: map[types.Object]types.Object{}, par: map[types.Object]int{},
-		lge: map[relKey]int64{}}
+		lge: map[relKey]int64{}, nonNil: map[types.Object]bool{}, okOf: map[types.Object]types.Object{}, nilSrc: map[types.Object]string{}}
 }
 
 func deadState() *state { s := newState(); s.dead = true; return s }
@@ -209,6 +212,15 @@ func (s *state) clone() *state {
 	}
 	for k, v := range s.lge {
 		n.lge[k] = v
+	}
+	for k, v := range s.nonNil {
+		n.nonNil[k] = v
+	}
+	for k, v := range s.okOf {
+		n.okOf[k] = v
+	}
+	for k, v := range s.nilSrc {
+		n.nilSrc[k] = v
 	}
 	return n
 }
@@ -273,6 +285,23 @@ func joinState(a, b *state) *state {
 			n.lge[k] = v
 		}
 	}
+	for k := range a.nonNil {
+		if b.nonNil[k] {
+			n.nonNil[k] = true
+		}
+	}
+	for k, v := range a.okOf {
+		if b.okOf[k] == v {
+			n.okOf[k] = v
+		}
+	}
+	// may-information: a value that can be nil on either path can be nil after the join
+	for k, v := range a.nilSrc {
+		n.nilSrc[k] = v
+	}
+	for k, v := range b.nilSrc {
+		n.nilSrc[k] = v
+	}
 	return n
 }
 
@@ -296,6 +325,14 @@ func (s *state) kill(obj types.Object) {
 	for k := range s.lge {
 		if k.x == obj || k.v == obj {
 			delete(s.lge, k)
+		}
+	}
+	delete(s.nonNil, obj)
+	delete(s.nilSrc, obj)
+	delete(s.okOf, obj)
+	for k, v := range s.okOf {
+		if v == obj {
+			delete(s.okOf, k)
 		}
 	}
 }
@@ -502,6 +539,8 @@ type xinfo struct {
 	replies  []replySite           // fact F6
 	literal  int                   // line-reply constructor calls whose payload is a compile-time constant
 	constErr map[types.Object]bool // functions whose every returned error is nil or an error with a compile-time constant text
+	nilable  map[types.Object]bool // functions whose first result (pointer / interface) is nil on some return
+	nils     []nilSite
 }
 
 // Fact F6 — a call of a constructor whose payload is sent as a LINE (simple string `+…`, error `-…`, plain): the payload must not
@@ -1112,6 +1151,11 @@ func (a *analyser) assume(st *state, cond ast.Expr, pol bool) *state {
 		if def, ok := a.boolDef[a.info.Uses[v]]; ok {
 			return a.assume(st, def, pol)
 		}
+		if val, ok := st.okOf[a.info.Uses[v]]; ok && pol {
+			n := st.clone()
+			n.nonNil[val] = true
+			return n
+		}
 	case *ast.UnaryExpr:
 		if v.Op == token.NOT {
 			return a.assume(st, v.X, !pol)
@@ -1128,6 +1172,19 @@ func (a *analyser) assume(st *state, cond ast.Expr, pol bool) *state {
 			op := v.Op
 			if !pol {
 				op = negOp(op)
+			}
+			// p != nil
+			if op == token.NEQ || op == token.EQL {
+				for _, pair := range [][2]ast.Expr{{v.X, v.Y}, {v.Y, v.X}} {
+					if id, ok := ast.Unparen(pair[1]).(*ast.Ident); ok && id.Name == "nil" && a.info.Uses[id] == types.Universe.Lookup("nil") {
+						if p := a.objOf(pair[0]); p != nil && a.local(p) {
+							if op == token.NEQ {
+								n.nonNil[p] = true
+							}
+							return n
+						}
+					}
+				}
 			}
 			// len(x)&1 == k, len(x)%2 == k
 			if bx, ok := ast.Unparen(v.X).(*ast.BinaryExpr); ok && (op == token.EQL || op == token.NEQ) {
@@ -1517,8 +1574,25 @@ func (a *analyser) expr(e ast.Node, st *state) {
 		a.expr(v.X, st)
 		if v.Type != nil && !st.dead {
 			a.record(v, "assert", "dynamic", 0, 0, "")
+			var src types.Object
+			if o := a.objOf(v.X); o != nil && a.local(o) {
+				src = o
+			}
+			a.nilRecord(v, "assert", src, st)
 		}
 		return
+	case *ast.SelectorExpr:
+		if o := a.objOf(v.X); o != nil && a.local(o) && !a.bail {
+			if _, from := st.nilSrc[o]; from {
+				a.nilRecord(v, "deref", o, st)
+			}
+		}
+	case *ast.StarExpr:
+		if o := a.objOf(v.X); o != nil && a.local(o) && !a.bail {
+			if _, from := st.nilSrc[o]; from {
+				a.nilRecord(v, "deref", o, st)
+			}
+		}
 	case *ast.CallExpr:
 		if a.builtin(v.Fun, "make") {
 			for _, arg := range v.Args[1:] {
@@ -1961,6 +2035,9 @@ func (a *analyser) assign(s *ast.AssignStmt, st *state) *state {
 		}
 		for i, f := range facts {
 			a.install(st, a.objOf(s.Lhs[i]), f)
+		}
+		if !a.bail {
+			a.nilFacts(st, s.Lhs, s.Rhs)
 		}
 	case token.QUO_ASSIGN, token.REM_ASSIGN:
 		a.divSite(s, nil, s.Rhs[0], st)
@@ -2484,6 +2561,7 @@ func extractSites(repo string) ([]siteOut, *xinfo, error) {
 	}
 	x := scanExecutors(l)
 	scanConstErr(l, x)
+	scanNilable(l, x)
 	for _, p := range sitePkgs {
 		path := "github.com/innovationb1ue/RedisGO/" + p
 		lp := l.cache[path]
@@ -2542,6 +2620,12 @@ func extractSites(repo string) ([]siteOut, *xinfo, error) {
 			return x.calls[i].File < x.calls[j].File
 		}
 		return x.calls[i].Line < x.calls[j].Line
+	})
+	sort.SliceStable(x.nils, func(i, j int) bool {
+		if x.nils[i].File != x.nils[j].File {
+			return x.nils[i].File < x.nils[j].File
+		}
+		return x.nils[i].Line < x.nils[j].Line
 	})
 	sort.SliceStable(x.replies, func(i, j int) bool {
 		if x.replies[i].File != x.replies[j].File {
@@ -2903,6 +2987,120 @@ func scanConstErr(l *loader, x *xinfo) {
 		}
 		if !changed {
 			break
+		}
+	}
+}
+
+// ------------------------------------------------------------------------------------------------ nil / presence (fact F3, second part)
+
+type nilSite struct {
+	File  string `json:"file"`
+	Func  string `json:"func"`
+	Line  int    `json:"line"`
+	Text  string `json:"text"`
+	Kind  string `json:"kind"`  // assert | deref
+	Class string `json:"class"` // guarded | unguarded
+	Guard string `json:"guard,omitempty"`
+	From  string `json:"from,omitempty"`
+}
+
+func (a *analyser) nilFacts(st *state, lhs, rhs []ast.Expr) {
+	if len(rhs) != 1 {
+		return
+	}
+	call, isCall := ast.Unparen(rhs[0]).(*ast.CallExpr)
+	switch {
+	case len(lhs) == 2:
+		v, ok := a.objOf(lhs[0]), a.objOf(lhs[1])
+		if v == nil || ok == nil || !a.local(v) || !a.local(ok) {
+			return
+		}
+		if b, isB := ok.Type().Underlying().(*types.Basic); !isB || b.Kind() != types.Bool {
+			return
+		}
+		if _, isTA := ast.Unparen(rhs[0]).(*ast.TypeAssertExpr); isCall || isTA {
+			st.okOf[ok] = v
+		}
+		if isCall {
+			if fn := a.callee(call); fn != nil && a.x != nil && a.x.nilable[originOf(fn)] {
+				st.nilSrc[v] = fn.Name()
+			}
+		}
+	case len(lhs) == 1 && isCall:
+		v := a.objOf(lhs[0])
+		if v == nil || !a.local(v) {
+			return
+		}
+		if fn := a.callee(call); fn != nil && a.x != nil && a.x.nilable[originOf(fn)] {
+			st.nilSrc[v] = fn.Name()
+		}
+	}
+}
+
+func originOf(o types.Object) types.Object {
+	if f, ok := o.(*types.Func); ok {
+		return f.Origin()
+	}
+	return o
+}
+
+func (a *analyser) nilRecord(n ast.Node, kind string, v types.Object, st *state) {
+	if a.x == nil || st.dead {
+		return
+	}
+	site := nilSite{File: a.file, Func: a.fn, Line: a.fset.Position(n.Pos()).Line, Text: a.text(n), Kind: kind, Class: "unguarded"}
+	if v != nil {
+		site.From = st.nilSrc[v]
+		if st.nonNil[v] && !a.bail {
+			site.Class = "guarded"
+			site.Guard = v.Name() + " present / non-nil on every path"
+		}
+	}
+	a.x.nils = append(a.x.nils, site)
+}
+
+// functions (of the inventoried packages) whose first result is a pointer / interface and that have a `return nil, …` somewhere
+func scanNilable(l *loader, x *xinfo) {
+	x.nilable = map[types.Object]bool{}
+	for _, p := range sitePkgs {
+		lp := l.cache["github.com/innovationb1ue/RedisGO/"+p]
+		if lp == nil {
+			continue
+		}
+		for _, f := range lp.files {
+			for _, d := range f.Decls {
+				fd, ok := d.(*ast.FuncDecl)
+				if !ok || fd.Body == nil || fd.Type.Results == nil {
+					continue
+				}
+				fn := lp.info.Defs[fd.Name]
+				if fn == nil {
+					continue
+				}
+				sig, ok := fn.Type().(*types.Signature)
+				if !ok || sig.Results().Len() == 0 {
+					continue
+				}
+				switch sig.Results().At(0).Type().Underlying().(type) {
+				case *types.Pointer, *types.Interface:
+				default:
+					if _, isTP := sig.Results().At(0).Type().(*types.TypeParam); !isTP {
+						continue
+					}
+				}
+				ast.Inspect(fd.Body, func(n ast.Node) bool {
+					if _, isLit := n.(*ast.FuncLit); isLit {
+						return false
+					}
+					if ret, ok := n.(*ast.ReturnStmt); ok && len(ret.Results) > 0 {
+						if id, ok := ast.Unparen(ret.Results[0]).(*ast.Ident); ok && id.Name == "nil" {
+							x.nilable[fn] = true
+						}
+						// a zero-valued local of the result type (`var zero T; return zero`) is not recognised
+					}
+					return true
+				})
+			}
 		}
 	}
 }
